@@ -29,8 +29,12 @@ META = {
             "every region < 2^64 bytes (cd_impl_refines_model), hence strict (cd_sound_lv, code_sound_lv), complete on "
             "canonical encodings (cd_complete_lv, code_complete_lv) and identical across the two generators; the code "
             "both generators emit for such sources is matched syntactically against Coq template generators over the "
-            "shape family (TieDecC, vm_compute) and the observed templates are executed in Coq on canonical and "
-            "corrupted regions against the model on every run.",
+            "shape family (TieDecC, vm_compute; legacy also under -O codesize), the REAL entry glue of both generators "
+            "(argument registration, keyword-argument entry points with their minimum call data size, venom's "
+            "constructor CODESIZE check) run on front-end function types is matched against Coq glue generators "
+            "(TieGlueC), and the observed templates are executed in Coq on canonical and corrupted regions against the "
+            "model on every run; multi-word static keyword arguments and interface-typed values (top level and nested) "
+            "are exercised on the EVM and in the glue tie / needs_clamp tie.",
     "level_note": "Theorems are about the model (Dec.v/Abi.v): one acceptance model for both decoders, tied by sampled "
                   "differential execution (exact accept/reject and value for calldata, abi_decode and returndata; "
                   "one-directional for constructor arguments), not by a proof about the code generators.  For memory "
@@ -39,9 +43,9 @@ META = {
                   "every generated type.  Calldata/code extension: the template generators (TplDecC.v) are tied "
                   "syntactically (114 shapes x 2 generators, both sources, two argument positions) and by execution in a "
                   "Coq evaluator with EVM calldataload/calldatacopy/codecopy semantics, not by a semantic proof "
-                  "generator = cdec; the entry glue (_register_function_args, _register_positional_args, ...) is "
-                  "mimicked by the exporter and pinned by AST hash; cdec abstracts reading the copied bytes back from "
-                  "memory.  Trusted: Coq kernel + vm_compute, pyrevm.",
+                  "generator = cdec; the entry glue is executed by the exporter on real function types (the second venom "
+                  "kwarg path and the emission of the calldatasize check are pinned by AST hash); cdec abstracts reading "
+                  "the copied bytes back from memory.  Trusted: Coq kernel + vm_compute, pyrevm.",
     "technique": "Coq proof over hand-written decoder model + differential correspondence with corruption stream; "
                  "O-tie of decoder templates (memory, calldata and code sources) + templates executed in Coq",
 }
@@ -66,19 +70,13 @@ DECODER_PINS = [
 ]
 
 
-# entry-point glue that hands calldata / code arguments to the decoders (modelled by CdImpl.cd_entry / ctor_entry and
-# by the argument pointers of TplDecC.tpl_cd_l / tpl_cd_v)
+# entry-point glue NOT executed by the O-tie exporters (c05_cdtpl.py / c05_cdglue.py run the real make_setter,
+# abi_decode_to_buf, _register_function_args, _generate_kwarg_handlers, _register_positional_args, _handle_kwargs,
+# _register_constructor_args, _generate_external_entry_points): the second venom kwarg path and the emission of the
+# calldatasize check from min_calldatasize are pinned by AST hash
 CD_PINS = [
-    ("vyper.codegen.function_definitions.external_function", "_register_function_args", "99f40066ad1789d8"),
-    ("vyper.codegen.function_definitions.external_function", "_generate_kwarg_handlers", "ee9746412650f25e"),
-    ("vyper.codegen_venom.module", "_register_positional_args", "e8a5246defad00fc"),
-    ("vyper.codegen_venom.module", "_register_constructor_args", "728dcc42f216687a"),
     ("vyper.codegen_venom.module", "_init_kwargs_in_entry_point", "262fee5d4c2fc1a0"),
     ("vyper.codegen_venom.module", "_emit_entry_checks", "234d7858b9434945"),
-    ("vyper.codegen.core", "_dynarray_make_setter", "4d908104467825a5"),
-    ("vyper.codegen.core", "copy_bytes", "d34f10a9b90466d0"),
-    ("vyper.codegen.core", "make_byte_array_copier", "3bf990975ec75822"),
-    ("vyper.codegen.core", "_prefer_copy_maxbound_heuristic", "55cb1821d6746400"),
 ]
 
 
